@@ -195,8 +195,8 @@ FIXED = [
     (F, _syms("( typedef-name/T ) { constant } INCDEC ;"), " }"),
     (F, _syms("sizeof ( typedef-name/T ) { constant } ;"), " }"),
     (F, _syms("UNOP ( typedef-name/T ) { constant } ;"), " }"),
-    (P + "int v[] = { ", _syms("[ constant ] MEMOP identifier/member [ constant ] = constant , "
-                              "MEMOP identifier/member = { constant }"), " };"),
+    (P + "int v[] = { ", _syms("[ constant ] . identifier/member [ constant ] = constant , "
+                              ". identifier/member = { constant }"), " };"),
     (P + "struct S { ", _syms("struct { TYPEKW1 identifier ; } ;"), " };"),
     (P + "struct S { ", _syms("SU { TYPEKW1 identifier ; } ; TYPEKW1 identifier ;"), " };"),
 ]
